@@ -640,6 +640,90 @@ fn replay_daily_marks(sc: &Value) -> Value {
     json!({"status": "done", "missing": missing, "missing_culprit": culprit_missing, "marks": marks.len()})
 }
 
+/// C11: through the API of a real database: a row is written and deleted; then a peer that has not seen the deletion announces it
+/// (filter_existing_node) and, if it is requested, delivers it (add_nodes).  Is the row visible again ?
+fn replay_deleted_row_announced(sc: &Value) -> Value {
+    use crate::database::graph_database::GraphDatabaseService;
+    use crate::database::node::{NodeIdentifier, NodeToInsert};
+    use crate::database::query_language::parameter::{Parameters, ParametersAdd};
+    let rt = tokio::runtime::Builder::new_multi_thread().enable_all().worker_threads(2).build().unwrap();
+    rt.block_on(async {
+        let base = std::env::var("VERIF_DATA_DIR").unwrap_or_else(|_| "/var/cache/discret-verif/data".to_string());
+        let path: std::path::PathBuf = format!("{}/c11/{}", base, crate::security::base64_encode(&crate::security::random32()[0..6])).into();
+        std::fs::create_dir_all(&path).unwrap();
+        let (app, own_key, _) = GraphDatabaseService::start(
+            "verif c11",
+            "ns { E{ name:String } }",
+            &crate::security::random32(),
+            &crate::security::random32(),
+            path,
+            &crate::configuration::Configuration::default(),
+            crate::event_service::EventService::new(),
+        )
+        .await
+        .unwrap();
+        let mut p = Parameters::default();
+        p.add("k", crate::security::base64_encode(&own_key)).unwrap();
+        let created = app
+            .mutate_raw(
+                r#"mutate { sys.Room{ admin:[{ verif_key:$k }] authorisations:[{ name:"g" rights:[{ entity:"ns.E" mutate_self:true mutate_all:true }] users:[{ verif_key:$k }] }] } }"#,
+                Some(p),
+            )
+            .await
+            .unwrap();
+        let room_uid = created.mutate_entities[0].node_to_mutate.id;
+        let room_id = crate::security::base64_encode(&room_uid);
+        let mut p = Parameters::default();
+        p.add("room", room_id.clone()).unwrap();
+        let row = app.mutate_raw(r#"mutate { ns.E{ room_id:$room name:"kept by a peer" } }"#, Some(p)).await.unwrap();
+        let row_uid = row.mutate_entities[0].node_to_mutate.id;
+        // the signed row, as a peer that synchronised before the deletion holds it
+        let mut rx = app.get_nodes(room_uid, vec![row_uid]).await;
+        let mut copy: Option<Node> = None;
+        while let Some(r) = rx.recv().await {
+            for n in r.unwrap() {
+                copy = Some(n);
+            }
+        }
+        let mut copy = copy.unwrap();
+        let visible = |json: String| json.contains("kept by a peer");
+        let before = visible(app.query("query { ns.E{ name } }", None).await.unwrap());
+        let mut p = Parameters::default();
+        p.add("id", crate::security::base64_encode(&row_uid)).unwrap();
+        app.delete("delete { ns.E{ $id } }", Some(p)).await.unwrap();
+        let after_delete = visible(app.query("query { ns.E{ name } }", None).await.unwrap());
+        // the peer's version: the deleted one, or a re-dated one signed through the signing service
+        match sc["announced"].as_str().unwrap_or("same") {
+            "older" => copy.mdate -= 1000,
+            "newer" => copy.mdate += 1000,
+            _ => {}
+        }
+        if sc["announced"].as_str().unwrap_or("same") != "same" {
+            let (_k, sig) = app.sign(copy.hash().unwrap().as_bytes().to_vec()).await;
+            copy._signature = sig;
+        }
+        let mut ids: HashSet<NodeIdentifier> = HashSet::new();
+        ids.insert(NodeIdentifier { id: row_uid, mdate: copy.mdate, signature: copy._signature.clone() });
+        let filtered: Vec<NodeToInsert> = app.filter_existing_node(ids).await.unwrap();
+        let requested = filtered.iter().any(|n| n.id == row_uid);
+        let mut rejected = 0;
+        if requested {
+            let mut to_insert = vec![];
+            for mut nti in filtered {
+                if nti.id == row_uid {
+                    let mut n = copy.clone();
+                    n._local_id = nti.old_local_id;
+                    nti.node = Some(n);
+                    to_insert.push(nti);
+                }
+            }
+            rejected = app.add_nodes(room_uid, to_insert).await.unwrap().len();
+        }
+        let visible_after = visible(app.query("query { ns.E{ name } }", None).await.unwrap());
+        json!({"status": "done", "visible_before": before, "visible_after_delete": after_delete, "requested": requested, "rejected_by_add_nodes": rejected, "visible_after": visible_after})
+    })
+}
+
 /// C03: Node::filter_existing on an in-memory SQLite holding the stored version; signatures are the 8 big-endian bytes
 /// of the model's rank, so that the byte order is the rank order
 fn replay_version_selection(sc: &Value) -> Value {
@@ -1620,6 +1704,7 @@ pub fn dispatch(sc: &Value) -> Value {
         "acquire_lock" => crate::synchronisation::room_locking_service::verif_hook::replay_acquire_lock(sc),
         "handshake" => crate::synchronisation::peer_inbound_service::verif_hook::replay_handshake(sc),
         "version_selection" => replay_version_selection(sc),
+        "deleted_row_announced" => replay_deleted_row_announced(sc),
         "lock_service" => crate::synchronisation::room_locking_service::verif_hook::replay_lock_service(sc),
         "invite_consumption" => crate::network::peer_manager::verif_hook::replay_invite_consumption(sc),
         "data_model_update" => replay_data_model_update(sc),
